@@ -7,11 +7,13 @@ second `c` (`s ≤ c < d`: the expiry sweeper journals live holds; the record's 
 reloaded at second `n ≥ c`: the loader skips it or replays it with `Expried = loadRemaining …`, which the engine turns into the
 new deadline `engineDeadline ef · n`.
 
-* seconds: restored deadline is EXACTLY `d + 1` while `n < d`, the record is skipped once `d ≤ n` (`deadline_seconds`,
-  `never_renews_seconds`) — except the uint16 overflow `e = 65535 ∧ c = s` (`seconds_overflow_loses_hold`);
+* seconds: restored deadline is EXACTLY `d + 1` while `n < d`, the record is skipped once `d ≤ n` (`deadline_seconds`); in
+  the one saturating case (`Expried = 65535`, journalled in the second of the grant: 65536 s left, stored as 65535 since
+  `fix: GetAofLockExpriedTime saturates …`) the restored deadline is exactly `d` (`deadline_seconds_saturated`); in all cases
+  `d' ≤ d + 1` (`never_renews_seconds`);
 * minutes: restored deadline within `[d − 59, d + 60]`, never lost while more than 61 s remain, always skipped from
   `d + 59` on (`deadline_minutes`); `d' ≤ d + 1` is FALSE (`minutes_extends_by_60`) — within the property's tolerance of
-  one unit plus a second, not a renewal of the period;
+  one unit plus a second, not a renewal of the period; the saturating case is restored too (`minutes_overflow_saturates`);
 * milliseconds: the record stores the ORIGINAL duration and the loader replays it unchanged: the whole period restarts at
   `n` (`deadline_ms_restarts_period`, witness `deadline_ms_renewed`): the outage renews the hold.
 -/
@@ -38,18 +40,48 @@ theorem deadline_seconds (ef e : Nat) (s c n : Int) (h : IsSeconds ef) (he : 0 <
     rw [hw, sec_skip ef _ c n h (by omega) (by omega)]
     simp; omega
 
-/-- The outage never renews a seconds-unit hold: whenever it is restored, its deadline is at most one second later. -/
-theorem never_renews_seconds (ef e : Nat) (s c n d' : Int) (h : IsSeconds ef) (he : 0 < e) (hs : 0 ≤ s) (hsc : s ≤ c)
-    (hlive : c < s + e + 1) (hov : s + e + 1 - c < 65536) (hcn : c ≤ n) (hn : n < 2 ^ 61) (hnd : n < s + e + 1)
+/-- **Seconds, saturating case** (`65536 ≤ d − c`, which for `Expried ≤ 65535` means `Expried = 65535 ∧ c = s`): 65535 is
+stored; the restored deadline is exactly `d`; the record is skipped from `d − 1` on. -/
+theorem deadline_seconds_saturated (ef e : Nat) (s c n : Int) (h : IsSeconds ef) (he2 : e ≤ 65535) (hs : 0 ≤ s) (hsc : s ≤ c)
+    (hov : 65536 ≤ s + e + 1 - c) (hcn : c ≤ n) (hn : n < 2 ^ 61) :
+    writeRemaining ef e (some (s + e + 1)) c = 65535 ∧
+    (n < s + e + 1 - 1 →
+      skippedAt ef (writeRemaining ef e (some (s + e + 1)) c) c.toNat n = false ∧
+      0 < loadRemaining ef (writeRemaining ef e (some (s + e + 1)) c) c n ∧
+      engineDeadline ef (loadRemaining ef (writeRemaining ef e (some (s + e + 1)) c) c n) n = some (s + e + 1)) ∧
+    (s + e + 1 - 1 ≤ n → skippedAt ef (writeRemaining ef e (some (s + e + 1)) c) c.toNat n = true) := by
+  have hw := sec_write_sat ef e (s + e + 1) c h (by omega) hov
+  refine ⟨hw, ?_, ?_⟩
+  · intro hnd
+    rw [hw, sec_skip ef _ c n h (by omega) (by omega), sec_load ef _ c n h hcn (by omega), sec_deadline ef _ n h]
+    refine ⟨by simp; omega, by omega, ?_⟩
+    congr 1; omega
+  · intro hnd
+    rw [hw, sec_skip ef _ c n h (by omega) (by omega)]
+    simp; omega
+
+/-- **The outage never renews a seconds-unit hold — all inputs**: whenever a live hold's record is replayed with a positive
+`Expried`, the restored deadline is at most one second later than the original. -/
+theorem never_renews_seconds (ef e : Nat) (s c n d' : Int) (h : IsSeconds ef) (he : 0 < e) (he2 : e ≤ 65535) (hs : 0 ≤ s)
+    (hsc : s ≤ c) (hlive : c < s + e + 1) (hcn : c ≤ n) (hn : n < 2 ^ 61)
+    (hns : skippedAt ef (writeRemaining ef e (some (s + e + 1)) c) c.toNat n = false)
     (hd' : engineDeadline ef (loadRemaining ef (writeRemaining ef e (some (s + e + 1)) c) c n) n = some d') :
     d' ≤ s + e + 1 + 1 := by
-  have := (deadline_seconds ef e s c n h he hs hsc hlive hov hcn hn).2.2.1 hnd
-  rw [this.2.2] at hd'
-  injection hd' with hd'; omega
+  by_cases hov : s + e + 1 - c < 65536
+  · obtain ⟨_, _, h3, h4⟩ := deadline_seconds ef e s c n h he hs hsc hlive hov hcn hn
+    by_cases hnd : n < s + e + 1
+    · rw [(h3 hnd).2.2] at hd'; injection hd' with hd'; omega
+    · rw [h4 (by omega)] at hns; cases hns
+  · obtain ⟨_, h3, h4⟩ := deadline_seconds_saturated ef e s c n h he2 hs hsc (by omega) hcn hn
+    by_cases hnd : n < s + e + 1 - 1
+    · rw [(h3 hnd).2.2] at hd'; injection hd' with hd'; omega
+    · rw [h4 (by omega)] at hns; cases hns
 
-/-- The excluded corner is a real loss: `Expried = 65535 s` journalled in the second of the grant stores
-`uint16(65536) = 0`; the reload one second later replays `Expried = 0`, i.e. no hold, 65535 s before the deadline. -/
-theorem seconds_overflow_loses_hold : journalReload 0 65535 1000 1000 1001 = (1000, 0, 0, false, 0) := by decide
+/-- The former loss is repaired: `Expried = 65535 s` journalled in the second of the grant stores 65535 (not `uint16(65536) = 0`);
+the reload one second later replays 65534 s: deadline 66536 = the original one. -/
+theorem seconds_overflow_saturates :
+    journalReload 0 65535 1000 1000 1001 = (1000, 0, 65535, false, 65534) ∧
+    engineDeadline 0 65535 1000 = some 66536 ∧ engineDeadline 0 65534 1001 = some 66536 := by decide
 
 /-- **Minutes.** -/
 theorem deadline_minutes (ef e : Nat) (s c n : Int) (h : IsMinutes ef) (hs : 0 ≤ s) (hsc : s ≤ c)
@@ -87,8 +119,11 @@ theorem minutes_extends_by_60 :
     engineDeadline 0x40 2 1000 = some 1121 ∧ journalReload 0x40 2 1000 1000 1060 = (1000, 0, 3, false, 2) ∧
     engineDeadline 0x40 2 1060 = some (1121 + 60) := by decide
 
-/-- Minutes, uint16 overflow corner: 65535 minutes journalled in the second of the grant stores 0 and is skipped. -/
-theorem minutes_overflow_loses_hold : journalReload 0x40 65535 1000 1000 1001 = (1000, 0, 0, true, 0) := by decide
+/-- Minutes, the saturating case: 65535 minutes journalled in the second of the grant (3 932 101 s left = 65536 minutes rounded
+up) stores 65535 (not 0); a reload one second later restores 65534 minutes: deadline `d − 59`, inside `[d − 59, d + 60]`. -/
+theorem minutes_overflow_saturates :
+    journalReload 0x40 65535 1000 1000 1001 = (1000, 0, 65535, false, 65534) ∧
+    engineDeadline 0x40 65535 1000 = some 3933101 ∧ engineDeadline 0x40 65534 1001 = some (3933101 - 59) := by decide
 
 /-- **Milliseconds, all inputs**: the stored value is the original duration and the replayed `Expried` is that same value:
 a record that is not skipped restarts the FULL period at `n` — the restored deadline is the original one plus the whole
